@@ -8,6 +8,7 @@ import (
 	"fmt"
 	"golang.org/x/sys/unix"
 	"os"
+	"path/filepath"
 	"strconv"
 	"strings"
 	"syscall"
@@ -17,6 +18,7 @@ import (
 
 	"github.com/criyle/go-sandbox/container"
 	"github.com/criyle/go-sandbox/pkg/forkexec"
+	"github.com/criyle/go-sandbox/pkg/mount"
 	"github.com/criyle/go-sandbox/ptracer"
 	"github.com/criyle/go-sandbox/runner"
 	"github.com/criyle/go-sandbox/runner/ptrace"
@@ -79,9 +81,10 @@ func main() {
 		t.Trace(context.Background())
 		forever()
 	}
-	if strings.HasPrefix(point, "ptrace_step:") || strings.HasPrefix(point, "ptrace_step_cred:") {
+	if strings.HasPrefix(point, "ptrace_step:") || strings.HasPrefix(point, "ptrace_step_cred:") || strings.HasPrefix(point, "ptrace_step_slow:") {
 		cred := strings.HasPrefix(point, "ptrace_step_cred:")
-		spec := strings.TrimPrefix(strings.TrimPrefix(point, "ptrace_step_cred:"), "ptrace_step:")
+		slow := strings.HasPrefix(point, "ptrace_step_slow:")
+		spec := strings.TrimPrefix(strings.TrimPrefix(strings.TrimPrefix(point, "ptrace_step_cred:"), "ptrace_step_slow:"), "ptrace_step:")
 		i := strings.LastIndexByte(spec, '#')
 		n, _ := strconv.Atoi(spec[i+1:])
 		st := &stepper{pat: spec[:i], n: n, point: point}
@@ -89,6 +92,21 @@ func main() {
 		if cred {
 			// the program runs under other ids than the launcher (a change of ids clears a parent-death signal asked for earlier)
 			fr.Credential = &syscall.Credential{Uid: 65534, Gid: 65534, NoSetGroups: true}
+		}
+		if slow {
+			// a long set-up in the child (thousands of mounts in its own mount namespace): the launcher has long returned from
+			// Start, the steps "tracer started" .. lie inside the child's set-up, before it asks to be traced
+			tg := filepath.Join(scratch, "slowmnt")
+			os.MkdirAll(tg, 0755)
+			sp, err := (&mount.Mount{Source: "tmpfs", Target: tg, FsType: "tmpfs"}).ToSyscall()
+			if err != nil {
+				announce(map[string]any{"err": err.Error()})
+				forever()
+			}
+			fr.CloneFlags = unix.CLONE_NEWNS
+			for i := 0; i < 3000; i++ {
+				fr.Mounts = append(fr.Mounts, *sp)
+			}
 		}
 		t := ptracer.Tracer{Handler: st, Runner: fr, Limit: runner.Limit{TimeLimit: time.Hour, MemoryLimit: 1 << 40}}
 		t.Trace(context.Background())
